@@ -603,7 +603,10 @@ pub fn gen_hist(rng: &mut Rng) -> HistScenario {
     if include_dir {
         keys.push("d");
     }
-    let cfg = GenCfg { alphabet: Alphabet::Ascii, eol: Eol::Lf, allow_faults: true, allow_syntax_fault: true, max_lead: 2 };
+    // a third of the histories may contain include cycles (they are handled since the C16
+    // repairs; the history must not matter there either)
+    let cycle_keys: Vec<String> = if rng.chance(1, 3) { keys.iter().filter(|k| **k != "d").map(|k| k.to_string()).collect() } else { Vec::new() };
+    let cfg = GenCfg { alphabet: Alphabet::Ascii, eol: Eol::Lf, allow_faults: true, allow_syntax_fault: true, max_lead: 2, cycle_keys };
     let mut vs = Versions(0);
     let mut specs: BTreeMap<String, TextSpec> = BTreeMap::new();
     let mut disk0 = BTreeMap::new();
